@@ -98,11 +98,11 @@ def process_all_requirements(pyscript_folder, requirements_paths, requirements_f
                 if len(parts) == 1:
                     new_version = UNPINNED_VERSION
                 else:
-                    new_version = parts[1]
+                    new_version = parts[1].strip()
                     # Reject anything that is not a version before it can be recorded
                     # (InvalidVersion is a ValueError: the line is skipped below)
                     Version(new_version)
-                pkg_name = parts[0]
+                pkg_name = parts[0].strip()
 
                 current_pinned_version = all_requirements_to_install.get(pkg_name, {}).get(ATTR_VERSION)
                 current_sources = all_requirements_to_install.get(pkg_name, {}).get(ATTR_SOURCES, [])
